@@ -24,6 +24,7 @@ Expressions E: list of atoms, evaluated left to right:
   ('r', r)                         read of slot r
   ('w', b, E)                      walrus (b := E)
   ('lam', [param...], E, callnow)  lambda; body E evaluated if callnow
+  ('callx', E)                     a call with arguments E: print(<args>)
   ('comp', kind, [(bs, Eiter, [Eif...])...], Eelt)   kind: list | set | dict | gen
 Slots: binding sites 'b<i>', reads 'r<i>', declarations 'd<i>' -- all plain ints unique within a shape;
 shape.kinds[slot] in {'b','r','d'}.
@@ -61,6 +62,8 @@ class Shape(object):
                 elif a[0] == 'w':
                     self.kinds[a[1]] = 'b'
                     E(a[2])
+                elif a[0] == 'callx':
+                    E(a[1])
                 elif a[0] == 'lam':
                     params(a[1])
                     E(a[2])
@@ -212,6 +215,8 @@ class _R(object):
             return self.n[a[1]]
         if k == 'w':
             return '(%s := %s)' % (self.n[a[1]], self.E(a[2]))
+        if k == 'callx':
+            return 'print(%s)' % ', '.join(self.atom(x) for x in a[1])
         if k == 'lam':
             body = 'lambda %s: %s' % (self.params(a[1]), self.E(a[2]))
             return '(%s)' % body
